@@ -96,7 +96,7 @@ def c01(tier):
         js.append(J("closure_parent_r%d" % r, "C04_tree.c", ["-DPARENT", "-DRES=%d" % r], unwind=17, est=5, bound="cellToParent, res %d" % r))
         js.append(J("closure_centerchild_r%d" % r, "C04_tree.c", ["-DSIZE", "-DRES=%d" % r], unwind=17, est=5, bound="cellToCenterChild, res %d" % r))
         js.append(J("closure_iter_c%d" % r, "C04_tree.c", ["-DITSTEP", "-DRES=%d" % r], unwind=18, est=10, bound="iterStepChild (=> cellToChildren, uncompactCells, polygon fill output), child res %d" % r))
-        js.append(J("closure_edge_r%d" % r, "C10_edges.c", ["-DDEST", "-DRES=%d" % r], unwind=r + 2, est=20, mem=("M" if r >= 9 else "S"), bound="directed-edge origin/destination, res %d" % r))
+        js.append(J("closure_edge_r%d" % r, "C10_edges.c", ["-DDEST", "-DRES=%d" % r], unwind=r + 2, est=20, mem=("M" if r >= 9 else "S"), tier=("quick" if r <= 5 else "thorough"), bound="directed-edge origin/destination, res %d" % r))
     for (p, c) in ((0, 2), (4, 5), (13, 15)):
         js.append(J("closure_childpos_%d_%d" % (p, c), "C13_childpos.c", ["-DFWD", "-DPRES=%d" % p, "-DCRES=%d" % c], unwind=17,
                     us={"_ipow.0": 6, "childPosToCell.0": c - p + 2, "childPosToCell.1": c - p + 2, "cellToChildPos.0": c - p + 2, "cellToChildPos.1": c - p + 2, "cellToParent.0": c + 2}, est=20, bound="childPosToCell (%d,%d)" % (p, c)))
@@ -250,7 +250,7 @@ def c13(tier):
 # ------------------------------------------------------------------------------------------- C10
 @prop("C10",
       functions=["isValidDirectedEdge", "getDirectedEdgeOrigin", "getDirectedEdgeDestination", "directedEdgeToCells", "cellsToDirectedEdge", "directionForNeighbor", "originToDirectedEdges", "h3NeighborRotations", "edgeLengthKm", "edgeLengthM"],
-      bounds={"quick": "isValidDirectedEdge and wrong-mode rejection: all 2^64 words; origin/destination decode: all valid cells of res 0-6,15 x 6 directions; cellsToDirectedEdge on neighbours: res 0-3; arbitrary 64-bit destination (E_NOT_NEIGHBORS): res 0-1; originToDirectedEdges: all 16 resolutions; unit scaling: all doubles x all error codes",
+      bounds={"quick": "isValidDirectedEdge and wrong-mode rejection: all 2^64 words; origin/destination decode: all valid cells of res 0-6 x 6 directions; cellsToDirectedEdge on neighbours: res 0-2; arbitrary 64-bit destination (E_NOT_NEIGHBORS): res 0-1; originToDirectedEdges: all 16 resolutions; unit scaling: all doubles x all error codes",
               "thorough": "decode: all 16 resolutions; cellsToDirectedEdge: res 0-8,15; arbitrary destination: res 0-3"},
       outside="directedEdgeToBoundary coordinates and edgeLengthRads itself (trig); shared-boundary coincidence is C08's lattice check",
       assumptions=["unit-scaling glue: edgeLengthRads replaced by an arbitrary (value, code) stub"],
@@ -262,10 +262,10 @@ def c10(tier):
     js += with_witness(J("scale_edge", "scale_glue.c", [], unwind=3, est=5, stubs={"latLng": ["edgeLengthRads"]}, bound="all doubles, all error codes"))
     for r in ALLRES:
         js.append(J("origins_r%d" % r, "C10_edges.c", ["-DORIGINS", "-DRES=%d" % r], unwind=17, est=5, bound="all valid cells of res %d" % r))
-        t = "quick" if r <= 6 or r == 15 else "thorough"
+        t = "quick" if r <= 6 else "thorough"
         js.append(J("dest_r%d" % r, "C10_edges.c", ["-DDEST", "-DRES=%d" % r], unwind=r + 2, est=20 + 5 * r, tier=t, mem=("M" if r >= 9 else "S"), bound="all valid cells of res %d x directions" % r))
         if r <= 8 or r == 15:
-            t = "quick" if r <= 3 else "thorough"
+            t = "quick" if r <= 2 else "thorough"
             js.append(J("cells2edge_r%d" % r, "C10_edges.c", ["-DCELLS2EDGE", "-DRES=%d" % r], unwind=r + 2, est=60 + 20 * r, mem="M", tier=t, timeout=2400, bound="all neighbour pairs at res %d" % r))
         if r <= 3:
             t = "quick" if r <= 1 else "thorough"
@@ -353,7 +353,7 @@ def c15(tier):
 # ------------------------------------------------------------------------------------------- C09
 @prop("C09",
       functions=["gridDistance", "gridPathCellsSize", "cellToLocalIjk", "cellToLocalIj", "localIjToCell", "localIjkToCell", "ijkDistance", "ijToIjk", "ijkToIj", "_h3ToFaceIjkWithInitializedFijk", "_getBaseCellDirection", "h3NeighborRotations"],
-      bounds={"quick": "a=b, resolution mismatch (any valid cell of another resolution), mode != 0: all valid cells of res 0,1,4; neighbours at distance 1: all neighbour pairs of res 0-3; symmetry: every pair of cells of res 0 and of res 1; Lipschitz half res 0; IJ round trip res 0-2, |i|,|j| <= 64",
+      bounds={"quick": "a=b, resolution mismatch (any valid cell of another resolution), mode != 0: all valid cells of res 0,1; neighbours at distance 1: all neighbour pairs of res 0-2; symmetry: every pair of cells of res 0 and of res 1; Lipschitz half res 0; IJ round trip res 0-2, |i|,|j| <= 64",
               "thorough": "neighbours: res 0-8 and 15 as far as they finish; symmetry and the Lipschitz half of the graph-distance characterisation: every pair of cells of res 0-2; IJ round trip res 0-4, |i|,|j| <= 64 (res 2: <= 400)"},
       outside="graph-distance equality beyond the local characterisation; IJ round trips above res 2 / beyond 2^6 (SAT cannot invert the coordinate arithmetic); unit-step clause",
       assumptions=["L-UP7 model for _upAp7Checked/_upAp7rChecked in the IJ round-trip job (lemma proved in the same run)"],
@@ -363,12 +363,12 @@ def c09(tier):
     LL = {"cellToLocalIjk.0": 7, "cellToLocalIjk.1": 7, "cellToLocalIjk.2": 7, "cellToLocalIjk.3": 7, "cellToLocalIjk.4": 7, "cellToLocalIjk.5": 7,
           "localIjkToCell.1": 7, "localIjkToCell.2": 7, "localIjkToCell.3": 7, "localIjkToCell.4": 7, "localIjkToCell.5": 7, "localIjkToCell.6": 7}
     for r in (0, 1, 4):
-        j = J("basic_r%d" % r, "C09_dist.c", ["-DBASIC", "-DRES=%d" % r], unwind=r + 2, us=LL, est=60 + 5 * r, mem="M", bound="all valid cells of res %d (mismatching cell: any valid cell of any other resolution)" % r)
+        j = J("basic_r%d" % r, "C09_dist.c", ["-DBASIC", "-DRES=%d" % r], unwind=r + 2, us=LL, est=60 + 5 * r, mem="M", tier=("quick" if r <= 1 else "thorough"), bound="all valid cells of res %d (mismatching cell: any valid cell of any other resolution)" % r)
         js += with_witness(j) if r == 1 else [j]
     for r in ALLRES:
         if r > 8 and r != 15:
             continue
-        t = "quick" if r <= 3 else "thorough"
+        t = "quick" if r <= 2 else "thorough"
         j = J("nbr_r%d" % r, "C09_dist.c", ["-DNBR", "-DRES=%d" % r], unwind=r + 2, us=LL, est=100 + 50 * r, tier=t, mem="M", timeout=3000, core=(r <= 5), bound="all neighbour pairs of res %d" % r)
         js += with_witness(j, tier=t) if r == 1 else [j]
     for r in (0, 1, 2):
@@ -390,7 +390,7 @@ def c09(tier):
 # ------------------------------------------------------------------------------------------- C11
 @prop("C11",
       functions=["cellToVertex", "cellToVertexes", "isValidVertex", "directionForVertexNum", "vertexNumForDirection", "vertexRotations", "h3NeighborRotations", "directionForNeighbor", "_h3ToFaceIjk", "_baseCellToCCWrot60"],
-      bounds={"quick": "glue (cellToVertex, isValidVertex, cellToVertexes): every 64-bit cell word and every component value within the contracts; centre-child minimality: all valid cells of res 1-8,15; vertex/direction bijection: res 0-2",
+      bounds={"quick": "glue (cellToVertex, isValidVertex, cellToVertexes): every 64-bit cell word and every component value within the contracts; centre-child minimality: all valid cells of res 1-8,15; vertex/direction bijection: res 0-1",
               "thorough": "centre-child minimality all resolutions; bijection res 0-3; triangle (corner neighbours adjacent) res 0-2; end to end cellToVertex + isValidVertex res 0-1"},
       outside="the global 2N-4 count; vertexToLatLng agreement with cellToBoundary (trig); lattice identity of the owner's corner (C08)",
       assumptions=["glue contracts: neighbour step total/distinct (C05.H1/H2), back-direction witness (C05.H3), bijection (VNUMBIJ), centre-child minimality (CENTREMIN), triangle (TRIANGLE, res 0-2 only)"],
@@ -408,7 +408,7 @@ def c11(tier):
         js += with_witness(j, tier=t) if r == 2 else [j]
     js += up7_lemma(10)
     for r in (0, 1, 2, 3):
-        t = "quick" if r <= 2 else "thorough"
+        t = "quick" if r <= 1 else "thorough"
         j = J("vnumbij_r%d" % r, "C11_comp.c", ["-DVNUMBIJ", "-DRES=%d" % r, "-DUPB=(1<<10)"], unwind=r + 2, unit_defs=UP7_DEFS, est=60 + 60 * r, mem="M", tier=t, timeout=2400, bound="all valid cells of res %d x all int vertex numbers and directions" % r)
         js += with_witness(j, tier=t) if r == 1 else [j]
     for r in (0, 1, 2):
@@ -495,7 +495,7 @@ def c17(tier):
     for r in (0, 1, 2, 3):
         t = "quick" if r <= 1 else "thorough"
         j = al("neighbors_r%d" % r, ["-DNEIGHBORS", "-DRES=%d" % r], unwind=max(r + 2, 4), us=DL, est=200 + 200 * r, mem="M", tier=t, timeout=3000, bound="every neighbour pair of res %d, every failure schedule" % r)
-        js += with_witness(j, tier=t) if r == 1 else [j]
+        js += with_witness(j, tier=t) if r == 0 else [j]
         for wd in (0, 1):
             j = al("disk%s_r%d" % ("dist" if wd else "", r), ["-DDISK", "-DRES=%d" % r] + (["-DWITHDIST"] if wd else []), unwind=max(r + 2, 4), us=DL, est=200 + 200 * r, mem="M", tier=t, timeout=3000, bound="every cell of res %d, k=1, every failure schedule" % r)
             js += with_witness(j, tier=t) if (r == 0 and wd == 0) else [j]
